@@ -202,7 +202,11 @@ class Exec:
                     for t in missing:
                         try:
                             q = t.pool._work_queue.qsize()
-                            busy = len(t.pool._threads) >= t.pool._max_workers
+                            # every worker of that pool is inside a node function of this execution (not merely
+                            # "exists"): nothing can pick the queued node up until one of them returns
+                            inside = sum(1 for u in self.toks if u.pool is t.pool and u.site is not None
+                                         and u.future is not None and not u.future.done())
+                            busy = len(t.pool._threads) >= t.pool._max_workers and inside >= t.pool._max_workers
                         except Exception:  # noqa: BLE001
                             q, busy = 0, False
                         if q > 0 and busy:
